@@ -1516,31 +1516,60 @@ class UnitBuilder:
                     j += 1
                 end = j
             return body[li:end + 1]
-        m = re.match(r"^arm_block (\d+)$", anchor)
+        m = re.match(r"^arm_block (\d+|~\S+)$", anchor)
         if m:
-            # the block of the K-th match arm of the function whose body is a block (`=> {`), braces included
-            k = int(m.group(1))
+            # the block of a match arm of the function whose body is a block (`=> {`), braces included: the K-th such arm, or
+            # (`~TEXT`) the first one whose pattern -- the tokens in front of `=>` -- contains TEXT
             sites = [i for i, t in enumerate(body) if is_p(t, "=") and adj(body, i, "=>") and i + 2 < len(body) and is_p(body[i + 2], "{")]
-            if k > len(sites):
-                raise Undecided(f"lost anchor: match arm #{k} with a block body in {fnq}")
-            j = sites[k - 1] + 2
+            if m.group(1).startswith("~"):
+                want = m.group(1)[1:]
+                hit = [i for i in sites if want in compact(body[max(0, i - 24):i]).split("{")[-1].split("}")[-1]]
+                if not hit:
+                    raise Undecided(f"lost anchor: no match arm with pattern containing `{want}` in {fnq}")
+                j = hit[0] + 2
+            else:
+                k = int(m.group(1))
+                if k > len(sites):
+                    raise Undecided(f"lost anchor: match arm #{k} with a block body in {fnq}")
+                j = sites[k - 1] + 2
             return body[j:match_close(body, j) + 1]
-        m = re.match(r"^for_loop (\d+)$", anchor)
+        m = re.match(r"^for_loop (\d+|~\S+)$", anchor)
         if m:
+            # a whole `for` statement: the K-th of the function, or (`~TEXT`) the first whose header contains TEXT
             loops = [l for l in loop_positions(body) if body[l[0]].text == "for"]
+            if m.group(1).startswith("~"):
+                want = m.group(1)[1:]
+                hit = [l for l in loops if want in compact(body[l[0] + 1:l[1]])]
+                if not hit:
+                    raise Undecided(f"lost anchor: no for loop with header containing `{want}` in {fnq}")
+                return body[hit[0][0]:hit[0][2] + 1]
             k = int(m.group(1))
             if k > len(loops):
                 raise Undecided(f"lost anchor: for loop #{k} in {fnq}")
             return body[loops[k - 1][0]:loops[k - 1][2] + 1]
-        m = re.match(r"^iflet_block (\d+)$", anchor)
+        m = re.match(r"^iflet_block (\d+|~\S+)$", anchor)
         if m:
-            # the block of the K-th `if let PAT = EXPR { .. }` of the function, braces included
-            k = int(m.group(1))
+            # the block of an `if let PAT = EXPR { .. }` of the function, braces included: the K-th, or (`~TEXT`) the first whose
+            # pattern contains TEXT
             sites = [i for i, t in enumerate(body) if t.kind == "ident" and t.text == "if" and i + 1 < len(body)
                      and body[i + 1].kind == "ident" and body[i + 1].text == "let"]
-            if k > len(sites):
-                raise Undecided(f"lost anchor: `if let` #{k} in {fnq}")
-            j = sites[k - 1] + 2
+            if m.group(1).startswith("~"):
+                want = m.group(1)[1:]
+                hit = []
+                for i in sites:
+                    e = i + 2
+                    while e < len(body) and not is_p(body[e], "="):
+                        e += 1
+                    if want in compact(body[i + 2:e]):
+                        hit.append(i)
+                if not hit:
+                    raise Undecided(f"lost anchor: no `if let` with pattern containing `{want}` in {fnq}")
+                j = hit[0] + 2
+            else:
+                k = int(m.group(1))
+                if k > len(sites):
+                    raise Undecided(f"lost anchor: `if let` #{k} in {fnq}")
+                j = sites[k - 1] + 2
             d = 0
             while not (is_p(body[j], "{") and d == 0):
                 if body[j].kind == "punct" and body[j].text in ("(", "["):
@@ -1549,7 +1578,7 @@ class UnitBuilder:
                     d -= 1
                 j += 1
             return body[j:match_close(body, j) + 1]
-        m = re.match(r"^arm_tail (\d+) after_let (\w+)(?:#(\d+))?$", anchor)
+        m = re.match(r"^arm_tail (\d+|~\S+) after_let (\w+)(?:#(\d+))?$", anchor)
         if m:
             # the statements of the K-th block-bodied match arm that follow its `let NAME` statement (braces excluded)
             blk = self.cut_fragment(body, f"arm_block {m.group(1)}", fnq)
